@@ -20,7 +20,7 @@ from deap import algorithms, base, cma, creator, gp, tools
 from props import c02
 
 ANCHORS = [("deap/algorithms.py", ["eaSimple", "eaMuPlusLambda", "eaMuCommaLambda", "eaGenerateUpdate", "varAnd", "varOr"]),
-           ("deap/gp.py", ["harm"]),
+           ("deap/gp.py", ["harm", "staticLimit"]),
            ("deap/tools/support.py", ["HallOfFame.update", "Statistics.compile", "Logbook.record"])]
 LEVEL = "proof"
 RULE = ("families: GA on bit lists (one-/two-point crossover, flip-bit; tournament / roulette / best selection) with "
@@ -33,8 +33,9 @@ EXHAUSTIVE = {"quick": False, "thorough": False}
 TIME_BUDGET = {"quick": 60, "thorough": 900}
 TRUSTED = ["operator contract of mate/mutate (C02/C09/C10/C11) and clone = deepcopy (C16); checked on every recorded call",
            "selectors return members of the list they are given (C05/C06): every returned object is located in the input by identity",
-           "HARM-GP's acceptance arithmetic (histogram, cutoff, target distribution; floats) is not modelled: each acceptfunc "
-           "result is read off the trace",
+           "HARM-GP's acceptance arithmetic is replayed in IEEE (Lean Float with the operation order of gp.py 1084-1122, libm exp/log): "
+           "the model derives every acceptfunc result from the recorded random() draw; a second protocol line replays the same "
+           "run with the results read off the trace",
            "CMA-ES strategy update (numpy linear algebra) is outside the model: only the order in which update() leaves the list"]
 ASSUMPTIONS = ["toolbox.evaluate is a pure function of the genotype returning a non-empty tuple",
                "individuals that come with a fitness carry the value evaluate gives for them (pre-evaluated truthfully)",
@@ -43,7 +44,8 @@ ASSUMPTIONS = ["toolbox.evaluate is a pure function of the genotype returning a 
                "toolbox.select returns exactly k members of its input (mu <= lambda for the mu/lambda loops; population "
                "non-empty for gp.harm; size >= 2 when varOr can take the crossover branch)"]
 EXPLANATION = ("Theorems C03.* are proved for the abstract generational machine of Core/Loops.lean for every number of generations "
-               "and every decision tape, relative to the operator contract; the correspondence replays recorded runs of the real loops.")
+               "and every decision tape, relative to the operator contract (operators may return their arguments or new objects); the "
+               "correspondence replays recorded runs of the real loops, HARM-GP's acceptance test included.")
 
 
 # ------------------------------------------------------------------------------------------
@@ -100,6 +102,8 @@ class Rec3(c02.Recorder):
     def obj3(self, ind):
         return "%s|%s" % (self.gtok(ind), wv(ind.fitness))
 
+    obj = obj3      # the operator script carries objects in the same form as the heap (weighted values)
+
     def stamp(self, toolbox):
         """call after wrap(): stamps the clone/mate/mutate events"""
         def stamped(f, is_clone=False):
@@ -107,7 +111,7 @@ class Rec3(c02.Recorder):
                 k, at = len(self.events), len(self.tp.draws)
                 valid = a[0].fitness.valid if is_clone else None
                 r = f(*a)
-                self.trace.append((at, "V", self.events[k]))
+                self.trace.append((at, "V", self.events[k], self.rets[k]))
                 if is_clone:
                     self.src_valid[self.oid[id(r)]] = valid
                 return r
@@ -167,7 +171,7 @@ def excluded(d):
     if d["loop"] == "gu":
         return d["lam"] < (3 if d["fam"] == "cma" else 1)    # cma.Strategy needs mu = lambda/2 >= 1 parents
     if d["loop"] == "harm":
-        return n < 1 or d["nbr"] < n
+        return n < 1 or (d["nbr"] != -1 and d["nbr"] < n)
     if d["loop"] in ("plus", "comma", "plusbest"):
         if d["mu"] < 1 or n < 1:
             return True
@@ -266,50 +270,60 @@ def dec_harm(entries, npop, nbr, offspring):
         p = s[1]
         if len(p) == 2:
             a, b = new_oid(nxt("V")[1]), new_oid(nxt("V")[1])
-            m = nxt("V")[1]
-            if m != "m%d&%d" % (a, b):
-                raise TraceError("HARM trace: mate event %s" % m)
-            return "x:%d:%d" % tuple(p), [a, b]
+            m = nxt("V")
+            if m[1] != "m%d&%d" % (a, b):
+                raise TraceError("HARM trace: mate event %s" % m[1])
+            return "x:%d:%d" % tuple(p), list(m[2])          # the aspirants are what mate RETURNED
         a = new_oid(nxt("V")[1])
         if pos[0] < len(it) and it[pos[0]][0] == "V" and it[pos[0]][1] == "u%d" % a:
             pos[0] += 1
-            return "m:%d" % p[0], [a]
+            return "m:%d" % p[0], list(it[pos[0] - 1][2])
         return "r:%d" % p[0], [a]
 
-    natural, nat_turns = [], []
+    natural, nat_turns, nat_turns_r = [], [], []
     while len(natural) < nbr:
         tok, asp = generate()
         for a in asp:
             if len(natural) < nbr:
                 natural.append(a)
         nat_turns.append(tok + ":1" * len(asp))
+        nat_turns_r.append(tok + ":0" * len(asp))
     offs = set(offspring)
-    pick, produced, acc_turns = list(natural), [], []
+    pick, produced, acc_turns, acc_turns_r = list(natural), [], [], []
+
+    def draw():
+        e = nxt("D")
+        if e[1] != "random":
+            raise TraceError("HARM trace: acceptfunc draw")
+        return tapemod.float_bits(e[2])
     while len(produced) < npop:
         if pick:
-            nxt("D")
+            r = draw()
             a = pick.pop()
             ok = a in offs
             if ok:
                 produced.append(a)
             acc_turns.append("p:%d" % ok)
+            acc_turns_r.append("p:%s" % r)
         else:
             tok, asp = generate()
-            flags = []
+            flags, rs = [], []
             for k, a in enumerate(asp):
                 if k == 0 or len(produced) < npop:
-                    nxt("D")
+                    rs.append(draw())
                     ok = a in offs
                     if ok:
                         produced.append(a)
                     flags.append(int(ok))
                 else:
                     flags.append(0)
+                    rs.append("0")            # acceptfunc is not called (`len(producedpop) < n and …`)
             acc_turns.append(tok + "".join(":%d" % f for f in flags))
+            acc_turns_r.append(tok + "".join(":%s" % x for x in rs))
     if pos[0] != len(it) or produced != list(offspring):
         raise TraceError("HARM trace does not parse: %d of %d entries used, produced %r, offspring %r"
                          % (pos[0], len(it), produced, list(offspring)))
-    return "%s/%s" % (sl(nat_turns), sl(acc_turns))
+    return "%s/%s" % (sl(nat_turns), sl(acc_turns)), "%s/%s" % (sl(nat_turns_r), sl(acc_turns_r))
 
 
 # ------------------------------------------------------------------------------------------
@@ -335,11 +349,14 @@ def evaluate(d):
     population = list(inds)
     pop_id = id(population)
     n0 = len(population)
+    nbr_eff = max(2000, n0) if d.get("nbr") == -1 else d.get("nbr")     # gp.py 1060-1061: the default nbrindsmodel
     tb = base.Toolbox()
     if loop != "gu":
         m, u = c02.operator_pair(d["mate"], d["mutate"], d.get("indpb", 0.5))
+        m, u = c02.wrap_ops(m, u, d.get("mwrap"), d.get("uwrap"), d.get("limit", 1))
         tb.register("mate", m)
         tb.register("mutate", u)
+    use_hof, use_stats, verbose = d.get("hof", True), d.get("stats", True), d.get("verbose", False)
     hof = tools.HallOfFame(d.get("hofsize", 1))
     cxpb, mutpb = float(d.get("cxpb", 0)), float(d.get("mutpb", 0))
 
@@ -348,6 +365,7 @@ def evaluate(d):
 
     with tapemod.Tape(rng=rng, numpy_too=(fam == "cma")) as tp:
         rec = Rec3(tp, inds)
+        rec.check_frame = d.get("nbr") != -1      # 2000 natural individuals: the per-call snapshots are quadratic
         heap_tok = ";".join(rec.obj3(x) for x in inds) if inds else "-"
         if loop != "gu":
             rec.wrap(tb)
@@ -374,7 +392,7 @@ def evaluate(d):
         upd0 = hof.update
 
         def hof_update(pop_):
-            rec.mark("H", [rec.of(x) for x in pop_])
+            rec.mark("H", [rec.of(x) for x in pop_], ["%d:%s" % (rec.of(x), wv(x.fitness)) for x in pop_])
             return upd0(pop_)
         hof.update = hof_update
 
@@ -391,7 +409,18 @@ def evaluate(d):
             boundaries.append({"n": len(data), "list": id(data), "truthful": truthful,
                                "best": max((x.fitness.wvalues for x in data), default=None),
                                "fits": [x.fitness.wvalues for x in data]})
-        stats = SnapStats(boundary)
+        stats = SnapStats(boundary) if use_stats else None
+        last_gu = [[]]       # generate-update without Statistics: the list update() was given
+
+        BaseLogbook = tools.Logbook
+
+        class HookLogbook(BaseLogbook):
+            """without a Statistics object the boundary is observed when the loop records the generation: the caller's
+            population list is read at that moment"""
+            def record(self, **kw):
+                if not use_stats:
+                    boundary(population if loop != "gu" else last_gu[0])
+                BaseLogbook.record(self, **kw)
 
         if loop == "gu":
             if fam == "cma":
@@ -437,45 +466,58 @@ def evaluate(d):
             def update(pop_):
                 before = list(pop_)
                 tell(pop_)
+                last_gu[0] = pop_
                 rec.mark("U", positions_of(pop_, before))
             tb.register("generate", generate)
             tb.register("update", update)
 
         asserted = False
+        hof_arg = hof if use_hof else None
+        import contextlib
+        import io
+        saved_logbook = tools.Logbook
+        tools.Logbook = HookLogbook
         try:
+          with contextlib.redirect_stdout(io.StringIO()):
             if loop == "simple":
-                res = algorithms.eaSimple(population, tb, cxpb, mutpb, ngen, stats=stats, halloffame=hof, verbose=False)
+                res = algorithms.eaSimple(population, tb, cxpb, mutpb, ngen, stats=stats, halloffame=hof_arg, verbose=verbose)
             elif loop in ("plus", "plusbest"):
                 res = algorithms.eaMuPlusLambda(population, tb, d["mu"], d["lam"], cxpb, mutpb, ngen, stats=stats,
-                                                halloffame=hof, verbose=False)
+                                                halloffame=hof_arg, verbose=verbose)
             elif loop == "comma":
                 res = algorithms.eaMuCommaLambda(population, tb, d["mu"], d["lam"], cxpb, mutpb, ngen, stats=stats,
-                                                 halloffame=hof, verbose=False)
+                                                 halloffame=hof_arg, verbose=verbose)
             elif loop == "harm":
-                res = gp.harm(population, tb, cxpb, mutpb, ngen, alpha=0.05, beta=10, gamma=d["gamma"], rho=0.9,
-                              nbrindsmodel=d["nbr"], mincutoff=d["mincutoff"], stats=stats, halloffame=hof,
-                              verbose=False)
+                res = gp.harm(population, tb, cxpb, mutpb, ngen, alpha=d.get("alpha", 0.05), beta=d.get("beta", 10),
+                              gamma=d["gamma"], rho=d.get("rho", 0.9),
+                              nbrindsmodel=d["nbr"], mincutoff=d["mincutoff"], stats=stats, halloffame=hof_arg,
+                              verbose=verbose)
             elif loop == "gu":
-                res = algorithms.eaGenerateUpdate(tb, ngen, halloffame=hof, stats=stats, verbose=False)
+                res = algorithms.eaGenerateUpdate(tb, ngen, halloffame=hof_arg, stats=stats, verbose=verbose)
             else:
                 raise ValueError(loop)
         except AssertionError:
             asserted = True
+        finally:
+            tools.Logbook = saved_logbook
 
     pops = sl(range(n0))
     script = ";".join(rec.calls) if rec.calls else "-"
-    tag = "%s/%s/%s" % (loop, fam, d.get("sel", "-"))
+    tag = "%s/%s/%s%s%s%s" % (loop, fam, d.get("sel", "-"), "/wrapped" if (d.get("mwrap") or d.get("uwrap")) else "",
+                              "" if use_hof else "/nohof", "" if use_stats else "/nostats")
+
+    sfx = "" if use_hof else "-nohof"
 
     def line_for(gens):
         table = ";".join("%s>%s" % kv for kv in rec.table.items()) or "-"
         g = "+".join(gens) if gens else "-"
         if loop == "simple":
-            return "C03 simple %s %s %s %s %s" % (heap_tok, pops, table, script, g)
+            return "C03 simple%s %s %s %s %s %s" % (sfx, heap_tok, pops, table, script, g)
         if loop in ("plus", "comma", "plusbest"):
-            return "C03 %s %s %s %s %s %d %d %s" % (loop, heap_tok, pops, table, script, d["mu"], d["lam"], g)
+            return "C03 %s%s %s %s %s %s %d %d %s" % (loop, sfx, heap_tok, pops, table, script, d["mu"], d["lam"], g)
         if loop == "harm":
-            return "C03 harm %s %s %s %s %d %s" % (heap_tok, pops, table, script, d["nbr"], g)
-        return "C03 gu %s %s" % (table, g)
+            return "C03 harm%s %s %s %s %s %d %s" % (sfx, heap_tok, pops, table, script, nbr_eff, g)
+        return "C03 gu%s %s %s" % (sfx, table, g)
 
     if asserted:
         inside = not (loop == "comma" and d["lam"] < d["mu"])
@@ -487,7 +529,7 @@ def evaluate(d):
     ch = rec.chron()
     gens_b, tail = split_boundaries(ch)
     first = 0 if loop == "gu" else 1
-    gens, trace_err = [], None
+    gens, gens_r, trace_err = [], [], None
     try:
         if any(e[0] in ("E", "S", "V", "D", "G", "U") for e in tail):
             raise TraceError("events after the last boundary: %r" % (tail[:5],))
@@ -499,10 +541,9 @@ def evaluate(d):
             elif loop == "plusbest":
                 gens.append(dec_mulam(entries, cxpb, mutpb, False))
             elif loop == "harm":
-                H = [e for e in entries if e[0] == "H"]
-                if len(H) != 1:
-                    raise TraceError("HARM generation with %d hall-of-fame updates" % len(H))
-                gens.append(dec_harm(entries, n0, d["nbr"], H[0][1]))
+                gb, gr = dec_harm(entries, n0, nbr_eff, b[1])       # the offspring are the population afterwards
+                gens.append(gb)
+                gens_r.append(gr)
             else:
                 G = [e for e in entries if e[0] == "G"]
                 U = [e for e in entries if e[0] == "U"]
@@ -516,8 +557,9 @@ def evaluate(d):
     log_tok = sl("%d:%d" % (r["gen"], r["nevals"]) for r in logbook)
     evals_tok = sl("%d:%d" % ((b if loop != "gu" else b), o) for b, o, _ in ev_calls)
     shown = [o for e in ch if e[0] == "H" for o in e[1]]
+    shown_tok = ";".join(t for e in ch if e[0] == "H" for t in e[2]) or "-"
     bounds = "+".join("%s|%s" % (sl(b[1]), ";".join(b[2]) if b[2] else "-") for _, b in gens_b) or "-"
-    ans = "log=%s evals=%s shown=%s bounds=%s vlog=%s" % (log_tok, evals_tok, sl(shown), bounds, sl(rec.events))
+    ans = "log=%s evals=%s shown=%s bounds=%s vlog=%s" % (log_tok, evals_tok, shown_tok if use_hof else "-", bounds, sl(rec.events))
     if rec.contract:
         ans = "operator-contract-violated: " + rec.contract
 
@@ -530,7 +572,7 @@ def evaluate(d):
     if gens_col != list(range(want_nb)):
         orc = "logbook generations %r instead of %r" % (gens_col, list(range(want_nb)))
     if orc is None and nb != want_nb:
-        orc = "statistics compiled %d times for %d generations" % (nb, ngen)
+        orc = "%d generation boundaries observed for %d generations" % (nb, ngen)
     # truthful fitness at every boundary
     for g, b in enumerate(boundaries):
         if orc is None and b["truthful"]:
@@ -543,6 +585,21 @@ def evaluate(d):
             if len(calls) != logbook[g]["nevals"]:
                 orc = "generation %d: evaluate called %d times but the logbook records nevals=%d" % (g, len(calls), logbook[g]["nevals"])
                 break
+            if len(set(calls)) != len(calls):
+                orc = "generation %d: evaluate was called more than once on the same individual: %r" % (g, calls)
+                break
+            touched_oids = set(rec.oid[i] for i in rec.touched if i in rec.oid)
+            if not use_hof:
+                # without a hall of fame the list of candidates of the generation is not observable: every evaluated
+                # individual must be new or changed (that no new or changed member of the population is skipped follows
+                # from the truthfulness check at the boundary)
+                if loop != "gu":
+                    stale = [o for o in calls if (o < n0 and d["inds"][o].get("pre")) or
+                             (o >= n0 and o not in touched_oids and rec.src_valid.get(o, False))]
+                    if stale:
+                        orc = "generation %d: evaluate was called on #%d, which is neither new nor changed" % (g, stale[0])
+                        break
+                continue
             if g >= len(hs):
                 orc = "generation %d: the hall of fame was not updated" % g
                 break
@@ -552,15 +609,11 @@ def evaluate(d):
                 orc = ("generation %d: individual #%d was evaluated but is not among the individuals the hall of fame "
                        "was shown in that generation (%r)" % (g, unseen[0], cand))
                 break
-            if len(set(calls)) != len(calls):
-                orc = "generation %d: evaluate was called more than once on the same individual: %r" % (g, calls)
-                break
             if loop == "gu":
                 expect = list(cand)
             elif g == 0:
                 expect = [o for o in cand if not d["inds"][o].get("pre")]
             else:
-                touched_oids = set(rec.oid[i] for i in rec.touched if i in rec.oid)
                 expect = [o for o in cand if o in touched_oids or not rec.src_valid.get(o, False)]
             if sorted(calls) != sorted(expect):
                 orc = ("generation %d: evaluate was called on %r but the new or changed individuals are %r"
@@ -573,7 +626,7 @@ def evaluate(d):
         if final_pop is not population or id(population) != pop_id:
             orc = "the returned population is not the caller's list object"
         for g, b in enumerate(boundaries):
-            if orc is None and b["list"] != pop_id:
+            if orc is None and use_stats and b["list"] != pop_id:
                 orc = "generation %d: statistics were compiled on a list that is not the caller's population" % g
             size = n0 if (loop in ("simple", "harm") or g == 0) else d["mu"]
             if orc is None and b["n"] != size:
@@ -581,7 +634,7 @@ def evaluate(d):
         if orc is None and len(population) != (n0 if (loop in ("simple", "harm") or ngen == 0) else d["mu"]):
             orc = "final population size %d" % len(population)
     # hall of fame: shown every evaluated individual; best entry at least as good as any fitness logged
-    if orc is None:
+    if orc is None and use_hof:
         shown_set = set(shown)
         for b, o, _ in ev_calls:
             if o not in shown_set:
@@ -600,9 +653,19 @@ def evaluate(d):
                     g - 1, boundaries[g - 1]["best"], g, boundaries[g]["best"])
                 break
     if trace_err is not None:
-        # the real run is not a run of the modelled machine (e.g. a different sequence of random draws): reported as a
-        # model/implementation disagreement unless the oracle already names the violated clause
-        return Case(d, ["C03 trace-error"], ["trace-error: " + trace_err], orc, tag=tag + "/trace-error", nontrivial=False)
+        # the real run is not a run of the modelled machine (e.g. a different sequence of random draws): a break of the
+        # correspondence (CONTRIBUTING, later conventions) unless the oracle already names the violated clause
+        # (reported as a protocol line the model cannot answer rather than as a `TAPE:` oracle text, so that lib's
+        # shrinker, which accepts any oracle text, cannot drift from a real violation to a mere tape mismatch)
+        return Case(d, ["C03 tape-error"], ["TAPE: " + trace_err], orc, tag=tag + "/trace-error", nontrivial=False)
+    if loop == "harm":
+        # second line: the model derives every acceptance itself from the recorded random() draws
+        from lib import fbits
+        table = ";".join("%s>%s" % kv for kv in rec.table.items()) or "-"
+        line_r = "C03 harmr" + sfx + " %s %s %s %s %d %s %s %s %d %d %s" % (
+            heap_tok, pops, table, script, nbr_eff, fbits(float(d.get("alpha", 0.05))), fbits(float(d.get("beta", 10))),
+            fbits(float(d["gamma"])), d["mincutoff"], int(n0 * d.get("rho", 0.9) - 1), "+".join(gens_r) if gens_r else "-")
+        return Case(d, [line_for(gens), line_r], [ans, ans], orc, tag=tag, nontrivial=ngen >= 1)
     return Case(d, [line_for(gens)], [ans], orc, tag=tag, nontrivial=ngen >= 1)
 
 
@@ -634,7 +697,8 @@ def prob(rng):
 
 def mk_case(rng, loop=None, ngen=None):
     loop = loop or rng.choice(["simple", "simple", "plus", "comma", "plusbest", "harm", "gu", "pso", "nsga2", "gpsimple"])
-    d = {"seed": rng.getrandbits(32), "ngen": rng.randint(0, 6) if ngen is None else ngen, "hofsize": rng.choice([1, 1, 2, 3])}
+    d = {"seed": rng.getrandbits(32), "ngen": rng.randint(0, 6) if ngen is None else ngen, "hofsize": rng.choice([1, 1, 2, 3]),
+         "hof": rng.random() < 0.7, "stats": rng.random() < 0.7, "verbose": rng.random() < 0.2}
     if loop in ("gu", "pso"):
         dim = rng.randint(2, 3)
         if loop == "gu":
@@ -663,6 +727,10 @@ def mk_case(rng, loop=None, ngen=None):
         mates, muts = ["cxOnePoint", "cxTwoPoint"], ["mutFlipBit"]
         d["weights"] = rng.choice([[1.0], [1.0], [-1.0]])
     d["mate"], d["mutate"] = rng.choice(mates), rng.choice(muts)
+    if rng.random() < 0.3:      # operators that return other objects than they were given (C02's wrappers)
+        d["mwrap"] = rng.choice([None, "pure", "swap", "pureswap", "half"] + (["limit", "limit"] if fam == "gp" else []))
+        d["uwrap"] = rng.choice([None, "pure"] + (["limit", "limit"] if fam == "gp" else []))
+        d["limit"] = rng.choice([0, 1, 2])
     if nsga:
         d["weights"] = rng.choice([[1.0, 1.0], [-1.0, 1.0]])
         d["sel"] = "nsga2"
@@ -679,8 +747,11 @@ def mk_case(rng, loop=None, ngen=None):
         d["mutpb"] = prob(rng)
         d["ngen"] = min(d["ngen"], 3)
         d["nbr"] = n + rng.choice([0, 0, 1, 3, n])
-        d["gamma"] = rng.choice([0.25, 0.05])
+        d["gamma"] = rng.choice([0.25, 0.25, 0.05, 2.0])
         d["mincutoff"] = rng.choice([1, 2, 20])
+        d["alpha"] = rng.choice([0.05, 0.05, 0.5])
+        d["beta"] = rng.choice([10, 10, 1, 2.5])
+        d["rho"] = rng.choice([0.9, 0.9, 0.5, 1.0])
     else:
         d["mutpb"] = rng.choice([0.0, 1.0 - d["cxpb"], rng.randint(0, 8) / 8.0 * (1.0 - d["cxpb"])])
         lam = rng.randint(1, 8)
@@ -697,8 +768,17 @@ def generate(tier, rng, mult):
     thorough = tier == "thorough"
     # every loop with ngen = 0, 1, 2 first
     for loop in ["simple", "plus", "comma", "plusbest", "harm", "gu", "pso", "nsga2", "gpsimple"]:
-        for ngen in (0, 0, 1, 1, 2):
-            yield mk_case(rng, loop, ngen)
+        for k, ngen in enumerate((0, 0, 1, 1, 2, 2, 3, 3)):
+            d = mk_case(rng, loop, ngen)
+            # every loop with and without hall of fame / Statistics / verbose output
+            d["hof"], d["stats"], d["verbose"] = k % 2 == 0, k % 4 < 2, k == 3
+            yield d
+    # gp.harm with the default nbrindsmodel=-1 (2000 natural individuals per generation)
+    for _ in range(10 if thorough else 1):
+        d = mk_case(rng, "harm", 1)
+        d["inds"] = d["inds"][:4]
+        d["nbr"] = -1
+        yield d
     for _ in range((40000 if thorough else 2500) * mult):
         yield mk_case(rng)
 
